@@ -3,6 +3,8 @@ import Librfn.Driver.Mlog
 import Librfn.Driver.Hex
 import Librfn.Driver.List
 import Librfn.Driver.Ring
+import Librfn.Driver.Pack
+import Librfn.Driver.Wav
 
 def main (args : List String) : IO UInt32 :=
   match args with
@@ -11,4 +13,6 @@ def main (args : List String) : IO UInt32 :=
   | "hex" :: rest => Librfn.Driver.Hex.main rest
   | "list" :: rest => Librfn.Driver.List.main rest
   | "ring" :: rest => Librfn.Driver.Ring.main rest
+  | "pack" :: rest => Librfn.Driver.Pack.main rest
+  | "wav" :: rest => Librfn.Driver.Wav.main rest
   | _ => do IO.eprintln "usage: librfn_model <engine> [args]"; return 2
